@@ -21,7 +21,6 @@ static SALIENCE_REGEX: OnceLock<Pattern> = OnceLock::new();
 static TEST_CONDITION_REGEX: OnceLock<Pattern> = OnceLock::new();
 static TYPED_TEST_CONDITION_REGEX: OnceLock<Pattern> = OnceLock::new();
 static FUNCTION_CALL_REGEX: OnceLock<Pattern> = OnceLock::new();
-static CONDITION_REGEX: OnceLock<Pattern> = OnceLock::new();
 static METHOD_CALL_REGEX: OnceLock<Pattern> = OnceLock::new();
 static FUNCTION_BINDING_REGEX: OnceLock<Pattern> = OnceLock::new();
 static MULTIFIELD_COLLECT_REGEX: OnceLock<Pattern> = OnceLock::new();
@@ -91,13 +90,6 @@ fn function_call_regex() -> &'static Pattern {
     FUNCTION_CALL_REGEX.get_or_init(|| {
         Pattern::new(r#"([a-zA-Z_]\w*)\s*\(([^)]*)\)\s*(>=|<=|==|!=|>|<|contains|startsWith|endsWith|matches|in)\s*(.+)"#)
             .expect("Invalid function call regex")
-    })
-}
-
-fn condition_regex() -> &'static Pattern {
-    CONDITION_REGEX.get_or_init(|| {
-        Pattern::new(r#"([a-zA-Z_][a-zA-Z0-9_]*(?:\.[a-zA-Z_][a-zA-Z0-9_]*)*(?:\s*[+\-*/%]\s*[a-zA-Z0-9_\.]+)*)\s*(>=|<=|==|!=|>|<|contains|startsWith|endsWith|matches|in)\s*(.+)"#)
-            .expect("Invalid condition regex")
     })
 }
 
@@ -1211,16 +1203,15 @@ impl GRLParser {
         // Parse expressions like: User.Age >= 18, Product.Price < 100.0, user.age >= 18, etc.
         // Support both PascalCase (User.Age) and lowercase (user.age) field naming
         // Also support arithmetic expressions like: User.Age % 3 == 0, User.Price * 2 > 100
-        let captures = condition_regex().captures(clause_to_parse);
+        let captures = Self::match_condition(clause_to_parse);
 
         // The pattern is not anchored, so it may describe only the tail of the clause.
         // Arithmetic it cannot describe (parenthesised operands, signed literals, a literal
         // first) is split at the top-level comparison operator and kept as an arithmetic
         // test instead of being rejected or losing its first part.
-        let covers_whole_clause = captures
-            .as_ref()
-            .and_then(|c| c.get(0))
-            .is_some_and(|m| m.len() == clause_to_parse.len());
+        let covers_whole_clause = captures.is_some_and(|(start, _, _, value)| {
+            start == 0 && clause_to_parse.ends_with(value)
+        });
         if !covers_whole_clause {
             if let Some((left, operator_str, right)) =
                 Self::split_top_level_comparison(clause_to_parse)
@@ -1233,13 +1224,13 @@ impl GRLParser {
             }
         }
 
-        let captures = captures.ok_or_else(|| RuleEngineError::ParseError {
-            message: format!("Invalid condition format: {}", clause_to_parse),
-        })?;
+        let (_, left_side, operator_str, value_str) =
+            captures.ok_or_else(|| RuleEngineError::ParseError {
+                message: format!("Invalid condition format: {}", clause_to_parse),
+            })?;
 
-        let left_side = captures.get(1).unwrap().trim().to_string();
-        let operator_str = captures.get(2).unwrap();
-        let value_str = captures.get(3).unwrap().trim();
+        let left_side = left_side.trim().to_string();
+        let value_str = value_str.trim();
 
         let operator =
             Operator::from_str(operator_str).ok_or_else(|| RuleEngineError::InvalidOperator {
@@ -1265,6 +1256,80 @@ impl GRLParser {
             let condition = Condition::new(left_side, operator, value);
             Ok(ConditionGroup::single(condition))
         }
+    }
+
+    /// Find `field[.field]* [arith-op operand]* <operator> value` in a clause: the first position
+    /// at which that shape starts, as (start, left side, operator, value). A hand-written scan of
+    /// what used to be one regular expression, because the regular-expression engine needs
+    /// time cubic in the clause length (minutes for a few hundred characters) when the clause
+    /// does not match.
+    fn match_condition(clause: &str) -> Option<(usize, &str, &'static str, &str)> {
+        const OPERATORS: [&str; 11] = [
+            ">=",
+            "<=",
+            "==",
+            "!=",
+            ">",
+            "<",
+            "contains",
+            "startsWith",
+            "endsWith",
+            "matches",
+            "in",
+        ];
+        let bytes = clause.as_bytes();
+        let at = |i: usize| bytes.get(i).copied().unwrap_or(0);
+        let ident_start = |b: u8| b.is_ascii_alphabetic() || b == b'_';
+        let ident_char = |b: u8| b.is_ascii_alphanumeric() || b == b'_';
+        let operand_char = |b: u8| b.is_ascii_alphanumeric() || b == b'_' || b == b'.';
+        let skip_ws = |mut i: usize| {
+            while at(i).is_ascii_whitespace() || at(i) == 0x0b {
+                i += 1;
+            }
+            i
+        };
+
+        for start in 0..bytes.len() {
+            if !ident_start(bytes[start]) {
+                continue;
+            }
+            // field path
+            let mut i = start;
+            while ident_char(at(i)) {
+                i += 1;
+            }
+            while at(i) == b'.' && ident_start(at(i + 1)) {
+                i += 1;
+                while ident_char(at(i)) {
+                    i += 1;
+                }
+            }
+            // arithmetic tail
+            loop {
+                let j = skip_ws(i);
+                if !matches!(at(j), b'+' | b'-' | b'*' | b'/' | b'%') {
+                    break;
+                }
+                let mut k = skip_ws(j + 1);
+                if !operand_char(at(k)) {
+                    break;
+                }
+                while operand_char(at(k)) {
+                    k += 1;
+                }
+                i = k;
+            }
+            // operator and value
+            let j = skip_ws(i);
+            if let Some(op) = OPERATORS.into_iter().find(|op| clause[j..].starts_with(op)) {
+                // the value is the rest of the line (the caller trims it)
+                let value = clause[j + op.len()..].split('\n').next().unwrap_or("");
+                if !value.is_empty() {
+                    return Some((start, &clause[start..i], op, value));
+                }
+            }
+        }
+        None
     }
 
     /// Split `left <cmp> right` at the first comparison operator that is outside
